@@ -221,8 +221,10 @@ func (r *Run) verifyImage(img *Image, idx int) *Violation {
 		return mk(durProps, "reopen-failed", "Open failed: %v", firstLine(err.Error()))
 	}
 	defer func() {
-		synctest.Wait()
-		db.Close()
+		if db != nil {
+			synctest.Wait()
+			db.Close()
+		}
 	}()
 	r.probe("fault:" + img.Kind + "_image_verified")
 	if img.Kind == "torn" {
@@ -254,7 +256,51 @@ func (r *Run) verifyImage(img *Image, idx int) *Violation {
 		}
 	}
 	keys := st.keys
-	return r.probeCommitAfterRecovery(db, st, keys, cfg, mk)
+	if v := r.probeCommitAfterRecovery(db, st, keys, cfg, mk); v != nil {
+		return v
+	}
+	// the recovered database is used (the probe commit above), closed cleanly and
+	// opened once more: what recovery left behind (truncated logs, re-written
+	// MANIFEST tail) must carry the next session too
+	if img.Kind == "torn" || idx%3 == 1 {
+		synctest.Wait()
+		before, err := dumpDB(db, keys)
+		if err != nil {
+			return mk(durProps, "read-after-recovery", "%v", err)
+		}
+		cerr := db.Close()
+		db = nil
+		if cerr != nil {
+			return mk(durProps, "close-after-recovery", "Close of the recovered database failed: %v", cerr)
+		}
+		var db2 *badger.DB
+		func() {
+			defer func() {
+				if p := recover(); p != nil {
+					err = fmt.Errorf("panic in Open: %v", p)
+				}
+			}()
+			if cfg.Managed {
+				db2, err = badger.OpenManaged(opt)
+			} else {
+				db2, err = badger.Open(opt)
+			}
+		}()
+		if err != nil {
+			return mk(durProps, "second-open-failed", "after recovery, one commit and a clean Close the next Open failed: %v", firstLine(err.Error()))
+		}
+		db = db2
+		synctest.Wait()
+		after, err := dumpDB(db, keys)
+		if err != nil {
+			return mk(durProps, "read-after-second-open", "%v", err)
+		}
+		if d := sameVisibleStates(before, after); d != "" {
+			return mk(durProps, "state-changed-after-second-open", "the recovered database was closed cleanly and re-opened, and shows a different visible state: %s", d)
+		}
+		r.probe("fault:second_open_after_recovery_verified")
+	}
+	return nil
 }
 
 // checkRecoveredState: structure, no garbage, visible state is a commit prefix >= acked.
